@@ -120,3 +120,37 @@ Fixpoint branches (s : namer) (ops : list op) : list nat :=
   end.
 Definition n_branches : nat := 12.
 Definition case_branches (c : case) : list nat := branches init (c_ops c).
+
+(* --- the constructor Namer(entries=[(name, addr); ...]): bulk load through addNameAddr; the first
+   rejected entry raises out of the constructor (no object exists then). --- *)
+Fixpoint construct (s : namer) (entries : list (N * N)) : res namer :=
+  match entries with
+  | [] => Ok s
+  | (n, a) :: rest =>
+    match add s n a with
+    | (s', Ok _) => construct s' rest
+    | (_, Exc k) => Exc k
+    end
+  end.
+
+(* a case that starts with a constructor call: what it raised (if it did), else the op results and the
+   final dicts as before *)
+Record ccase := { cc_entries : list (N * N);
+                  cc_raised : option exn;
+                  cc_case : case }.
+
+Definition check_ccase (c : ccase) : bool :=
+  match construct init (cc_entries c), cc_raised c with
+  | Exc k, Some k' => exn_eqb k k'
+  | Ok s0, None =>
+    let (s, rs) := run s0 (c_ops (cc_case c)) in
+    list_eqb (res_eqb Bool.eqb) rs (c_results (cc_case c)) &&
+    same_map (abn s) (c_abn (cc_case c)) && same_map (nba s) (c_nba (cc_case c))
+  | _, _ => false
+  end.
+
+Definition ccase_branches (c : ccase) : list nat :=
+  match construct init (cc_entries c) with
+  | Ok s0 => branches s0 (c_ops (cc_case c))
+  | Exc _ => [2%nat]
+  end.
